@@ -561,7 +561,10 @@ def report_violation(ctx, payload, signature=None, finding_ids=None):
 
 
 def write_evidence(ctx, level, coverage, assumptions=None):
-    os.makedirs(os.path.join(VERIF, "evidence"), exist_ok=True)
+    # evidence describes /repo; a run against a scratch tree (VERIF_REPO, used when evaluating seeded changes)
+    # must not overwrite it
+    evdir = os.path.join(VERIF, "evidence") if os.path.realpath(REPO) == "/repo" else os.path.join(tempfile.gettempdir(), "verif-evidence-scratch")
+    os.makedirs(evdir, exist_ok=True)
     cov = dict(coverage)
     cov.setdefault("notes", ctx.notes[:50])
     cov.setdefault("known_findings_reproduced", [k[0] for k in ctx.known])
@@ -576,7 +579,7 @@ def write_evidence(ctx, level, coverage, assumptions=None):
         "violations": len(ctx.violations),
         "repo": repo_rev(),
     }
-    with open(os.path.join(VERIF, "evidence", ctx.prop + ".json"), "w") as f:
+    with open(os.path.join(evdir, ctx.prop + ".json"), "w") as f:
         json.dump(ev, f, indent=1)
 
 
